@@ -189,11 +189,25 @@ class Facts:
         elif vals and 0 not in vals:
             truth = True
         if d[0] == "discr":
-            some_edge = (vals == [1]) or (is_else and all_vals == [0])
+            names = dict(d[2]) if len(d) > 2 and d[2] else {}
+            from .core import PRESENT_VARIANTS
+            if names:
+                here = {names[v] for v in vals if v in names} | ({n for v, n in names.items() if v not in all_vals} if is_else else set())
+                some_edge = bool(here) and here <= PRESENT_VARIANTS
+            else:
+                some_edge = (vals == [1]) or (is_else and all_vals == [0])
             if some_edge:
                 x = strip(d[1])
+                if x[0] == "call" and x[1] == "std::ops::Try::branch" and x[2]:
+                    x = strip(x[2][0])
                 if x[0] == "call" and x[1].split("::")[-1] == "get" and x[2] and component(x[2][0]) and component(x[2][0])[0] in ("heap", "qp"):
                     self.lt_len.add(c(self.rb.pos_of_sub(x[2][1])))
+                    self.len_ge = max(self.len_ge, 1)
+                # a successful keyed lookup / removal: the store held that entry, so it is (was) not empty
+                if x[0] == "call" and x[1].split("::")[-1] in ("swap_remove_full", "get_full_mut", "get_full_mut2", "get_full", "get_mut", "swap_remove"):
+                    self.hit = True
+                    self.len_ge = max(self.len_ge, 1)
+                if x[0] == "call" and x[1].split("::")[-1] in ("find_max", "find_min"):
                     self.len_ge = max(self.len_ge, 1)
             return
         if d[0] == "unop" and d[1] == "Not":
@@ -277,6 +291,11 @@ class Facts:
                 self.ge1.add(c(B))
             # len <= k negated handled via lt
         elif op == "ne":
+            for x, y in ((a, b), (b, a)):
+                if rb.is_len(x) and const_int(y) is not None:
+                    self.len_ne = getattr(self, "len_ne", set()) | {const_int(y)}
+                    while self.len_ge in self.len_ne:
+                        self.len_ge += 1
             if const_int(b) == 0:
                 self.ge1.add(c(A))
                 if rb.is_len(a):
@@ -308,6 +327,7 @@ class RB:
         self.view = view
         self.fvp = FlowVP(view)
         self._facts = {}
+        self.inferred = {}
 
     def c(self, t):
         return canon(t)
@@ -385,6 +405,12 @@ class RB:
             req = con.get("pos<len", []) + con.get("idx<len", [])
             if not f.is_closure and t[2] in req:
                 return True, "b4: precondition of %s on parameter %d" % (f.key.split("::")[-1], t[2])
+            owner = self.view.prog.fn(t[1]) if isinstance(t[1], str) else None
+            if owner is not None and not owner.is_closure and not owner.exported and owner.key not in CONTRACTS and \
+                    owner.key not in self.view.fx.known_functions() and isinstance(t[2], int) and t[2] >= 2:
+                # a NEW private helper: its obligation becomes an inferred precondition, discharged at every call site
+                self.inferred.setdefault(owner.key, set()).add(t[2])
+                return True, "b4: inferred precondition of the private helper %s on parameter %d (checked at its call sites)" % (owner.name, t[2])
             return False, "parameter %s carries no `< len` precondition in the contract of %s" % (t[3] or t[2], short(f.key))
         if k == "adt" and t[1].endswith(("Position", "Index")) and len(t[3]) == 1:
             x = strip(t[3][0])
@@ -437,6 +463,15 @@ class RB:
                 return True, "b3: OccupiedEntry::index()"
             if nm in ("left", "right"):
                 return False, "left/right(x) needs a dominating guard `< len`"
+            # result of a NEW private helper: valid if every value it can return is valid inside it
+            callee = self.view.prog.fn(t[1])
+            if callee is not None and not callee.is_closure and not callee.exported and callee.key not in self.view.fx.known_functions() and callee.cfg.returns:
+                memo = ("post", callee.key)
+                if memo in seen:
+                    return True, "inductive"
+                r = self.fvp.local(callee, 0, callee.cfg.returns[0], 10 ** 6)
+                ok, why = self.valid(callee, callee.cfg.returns[0], r, kind, depth + 1, seen + (memo,))
+                return ok, "result of the private helper %s: %s" % (callee.name, why)
             return False, "unrecognised call %s" % t[1]
         if k == "field":
             base = strip(t[1])
@@ -691,10 +726,30 @@ def r_bounds(ctx, view):
                     ok, why = rb.valid(f, bi, args[1])
                     ob(f, t, k(f, "index[]"), ok, why, "panicking-call")
         # new unsafe fn / unchecked helper without a contract
-        if f.j.get("unsafe") and f.key not in CONTRACTS:
+        if f.j.get("unsafe") and f.key not in CONTRACTS and (f.exported or f.key in fx.known_functions()):
             ctx.ob("R-BOUNDS", "%s:contract" % short(f.key), False, f.loc(), "unsafe fn without a contract in the R-BOUNDS table")
+    # inferred preconditions of new private helpers: every call site must establish them (to a fixed point)
+    done = set()
+    rounds = 0
+    while rounds < 5:
+        rounds += 1
+        todo = [(k, p) for k, ps in rb.inferred.items() for p in sorted(ps) if (k, p) not in done]
+        if not todo:
+            break
+        for (hk, pi) in todo:
+            done.add((hk, pi))
+            for f in sorted(prog.fns.values(), key=lambda x: x.key):
+                for bi, t in f.calls():
+                    if fx.call_info(f, bi).local_callee != hk:
+                        continue
+                    args = fvp.call_args(f, bi)
+                    if pi - 1 >= len(args):
+                        continue
+                    ok, why = rb.valid(f, bi, args[pi - 1])
+                    ob(f, t, k(f, "pre:%s:arg%d<len(inferred)" % (hk.split("::")[-1], pi)), ok,
+                       "%s(%s): %s" % (hk.split("::")[-1], term_str(args[pi - 1])[:50], why), "precondition")
     ctx.floor("R-BOUNDS", n, 120)
-    ctx.notes.append("R-BOUNDS obligation kinds: %s" % kinds)
+    ctx.notes.append("R-BOUNDS obligation kinds: %s; inferred helper preconditions: %s" % (kinds, {k2: sorted(v) for k2, v in rb.inferred.items()}))
     return n
 
 
